@@ -1132,4 +1132,353 @@ theorem Good_single (f : File) (o : Obj) (hc : o.cache = []) (hch : o.chain = []
     | zero => simp at ho; subst ho; rw [hc] at hl; simp [lookup] at hl
     | succ i => simp at ho
 
+
+/-! ### time slices start at an info-wave sample of the window: `SliceClosed` holds for every file -/
+
+open Verif.Py
+
+theorem stamp_mem {t dt : Int} {l : List Nat} {x : Int × Nat} (h : x ∈ stamp t dt l) :
+    ∃ m : Nat, m < l.length ∧ x.1 = t + m * dt := by
+  induction l generalizing t with
+  | nil => simp [stamp] at h
+  | cons c cs ih =>
+    simp only [stamp, List.mem_cons] at h
+    rcases h with h | h
+    · exact ⟨0, by simp, by rw [h]; simp⟩
+    · obtain ⟨m, hm, hx⟩ := ih h
+      refine ⟨m + 1, by simp; omega, ?_⟩
+      rw [hx]; push_cast; rw [Int.add_mul]; omega
+
+theorem cdiv_mul_ge (x d : Int) (hd : 0 < d) : x ≤ cdiv x d * d := by
+  unfold cdiv
+  have h1 := Int.ediv_mul_add_emod (x + d - 1) d
+  have h2 := Int.emod_lt_of_pos (x + d - 1) hd
+  have h3 := Int.emod_nonneg (x + d - 1) (Int.ne_of_gt hd)
+  omega
+
+theorem alignedStart_ge (g0 dt a : Int) (hd : 0 < dt) : a ≤ alignedStart g0 dt a := by
+  unfold alignedStart
+  have h2 := Int.emod_lt_of_pos (a - g0) hd
+  simp only
+  split <;> omega
+
+theorem window_mem (f : File) (hd : 0 < f.dt) (s e : Int) {x : Int × Nat} (h : x ∈ window f s e) :
+    s ≤ x.1 ∧ f.dt ∣ (x.1 - f.t0) := by
+  unfold window at h
+  simp only at h
+  obtain ⟨m, hm, hx⟩ := stamp_mem h
+  generalize hi : gridIdx f.t0 f.dt f.iw.length (alignedStart f.t0 f.dt s) = i at hm hx
+  have hlen : i < f.iw.length := by
+    have : ((f.iw.drop i).take (gridIdx f.t0 f.dt f.iw.length e - i)).length ≤ f.iw.length - i := by
+      rw [List.length_take, List.length_drop]; omega
+    omega
+  have hge : cdiv (alignedStart f.t0 f.dt s - f.t0) f.dt ≤ (i : Int) := by
+    unfold gridIdx at hi
+    omega
+  have h1 := cdiv_mul_ge (alignedStart f.t0 f.dt s - f.t0) f.dt hd
+  have h2 := alignedStart_ge f.t0 f.dt s hd
+  have h3 : cdiv (alignedStart f.t0 f.dt s - f.t0) f.dt * f.dt ≤ (i : Int) * f.dt :=
+    Int.mul_le_mul_of_nonneg_right hge (Int.le_of_lt hd)
+  have h4 : (0 : Int) ≤ (m : Int) * f.dt := Int.mul_nonneg (Int.natCast_nonneg m) (Int.le_of_lt hd)
+  refine ⟨by omega, ?_⟩
+  refine ⟨(i : Int) + m, ?_⟩
+  rw [hx, Int.mul_add, Int.mul_comm f.dt i, Int.mul_comm f.dt m]; omega
+
+theorem mem_chunksOf {α} {k : Nat} : ∀ (fuel : Nat) (l g : List α), g ∈ chunksOf k fuel l → g ≠ [] ∧ ∀ x ∈ g, x ∈ l := by
+  intro fuel
+  induction fuel with
+  | zero => intro l g h; simp [chunksOf] at h
+  | succ n ih =>
+    intro l g h
+    unfold chunksOf at h
+    split at h
+    · simp at h
+    · rename_i hk
+      have hk' : ¬ k = 0 ∧ ¬ l.length < k := by
+        constructor
+        · intro h0; exact hk (Or.inl h0)
+        · intro h0; exact hk (Or.inr h0)
+      simp only [List.mem_cons] at h
+      rcases h with h | h
+      · subst h
+        refine ⟨?_, fun x hx => List.mem_of_mem_take hx⟩
+        intro h0
+        have := congrArg List.length h0
+        rw [List.length_take] at this
+        simp only [List.length_nil] at this
+        omega
+      · obtain ⟨h1, h2⟩ := ih _ g h
+        exact ⟨h1, fun x hx => List.mem_of_mem_drop (h2 x hx)⟩
+
+theorem mem_groupsOf {α} {k : Nat} : ∀ (fuel : Nat) (l g : List α), g ∈ groupsOf k fuel l → g ≠ [] ∧ ∀ x ∈ g, x ∈ l := by
+  intro fuel
+  induction fuel with
+  | zero => intro l g h; simp [groupsOf] at h
+  | succ n ih =>
+    intro l g h
+    unfold groupsOf at h
+    split at h
+    · simp at h
+    · rename_i hk
+      have hk' : ¬ k = 0 ∧ ¬ l = [] := by
+        constructor
+        · intro h0; exact hk (Or.inl h0)
+        · intro h0; exact hk (Or.inr h0)
+      simp only [List.mem_cons] at h
+      rcases h with h | h
+      · subst h
+        refine ⟨?_, fun x hx => List.mem_of_mem_take hx⟩
+        intro h0
+        have := congrArg List.length h0
+        rw [List.length_take] at this
+        have hl : 0 < l.length := List.length_pos_iff.mpr hk'.2
+        simp only [List.length_nil] at this
+        omega
+      · obtain ⟨h1, h2⟩ := ih _ g h
+        exact ⟨h1, fun x hx => List.mem_of_mem_drop (h2 x hx)⟩
+
+theorem headD_mem {α} {g : List α} (d : α) (h : g ≠ []) : g.headD d ∈ g := by
+  cases g with
+  | nil => exact absurd rfl h
+  | cons a t => simp
+
+theorem pixelSpans_mem {w : List (Int × Nat)} {sp : Int × Int} (h : sp ∈ pixelSpans w) :
+    ∃ x ∈ w, sp.1 = x.1 := by
+  unfold pixelSpans at h
+  simp only [List.mem_map] at h
+  obtain ⟨px, hpx, rfl⟩ := h
+  obtain ⟨hne, hsub⟩ := mem_chunksOf _ _ _ hpx
+  exact ⟨px.headD (0, 0), (List.mem_filter.mp (hsub _ (headD_mem _ hne))).1, rfl⟩
+
+theorem lineRangesOf_mem {P : Nat} {dt : Int} {spans : List (Int × Int)} {r : Int × Int}
+    (h : r ∈ lineRangesOf P dt spans) : ∃ sp ∈ spans, r.1 = sp.1 := by
+  unfold lineRangesOf at h
+  simp only [List.mem_map] at h
+  obtain ⟨ln, hln, rfl⟩ := h
+  obtain ⟨hne, hsub⟩ := mem_groupsOf _ _ _ hln
+  exact ⟨ln.headD (0, 0), hsub _ (headD_mem _ hne), rfl⟩
+
+theorem sliceBounds_mem {ranges : List (Int × Int)} {a b st s' e' : Int}
+    (h : sliceBounds ranges a b st = some (s', e')) : ∃ r ∈ ranges, s' = r.1 := by
+  unfold sliceBounds at h
+  simp only at h
+  split at h
+  · cases h
+  · rename_i hne
+    split at h
+    · cases h
+    · simp only [Option.some.injEq, Prod.mk.injEq] at h
+      have hle : searchsortedLeft (ranges.map (·.1)) a ≤ (ranges.map (·.1)).length := by
+        unfold searchsortedLeft; exact (List.takeWhile_sublist _).length_le
+      have hlt : searchsortedLeft (ranges.map (·.1)) a < (ranges.map (·.1)).length := by omega
+      have hget : (ranges.map (·.1)).getD (searchsortedLeft (ranges.map (·.1)) a) 0
+          = (ranges.map (·.1))[searchsortedLeft (ranges.map (·.1)) a] := by
+        rw [List.getD_eq_getElem?_getD, List.getElem?_eq_getElem hlt]; rfl
+      have hm : s' ∈ ranges.map (·.1) := by
+        rw [← h.1, hget]; exact List.getElem_mem hlt
+      simp only [List.mem_map] at hm
+      obtain ⟨r, hr, hrs⟩ := hm
+      exact ⟨r, hr, hrs.symm⟩
+
+theorem Untruncated_later {f : File} {s s' : Int} (hU : Untruncated f s) (hle : s ≤ s') (hd : f.dt ∣ (s' - f.t0)) :
+    Untruncated f s' := by
+  obtain ⟨h0, h1, h2⟩ := hU
+  refine ⟨h0, hd, ?_⟩
+  intro c ch hc
+  obtain ⟨g1, g2⟩ := h2 c ch hc
+  refine ⟨by omega, ?_⟩
+  have : s' - ch.start = (s' - f.t0) - (s - f.t0) + (s - ch.start) := by omega
+  rw [this]
+  exact Int.dvd_add (Int.dvd_sub hd h1) g2
+
+/-- time slices of an untruncated kymograph are untruncated -/
+theorem sliceClosed (f : File) : SliceClosed f := by
+  intro s e a b st s' e' hU hb
+  obtain ⟨r, hr, hs⟩ := sliceBounds_mem hb
+  obtain ⟨sp, hsp, h1⟩ := lineRangesOf_mem hr
+  obtain ⟨x, hx, h2⟩ := pixelSpans_mem hsp
+  obtain ⟨g1, g2⟩ := window_mem f hU.1 s e hx
+  rw [hs, h1, h2]
+  exact Untruncated_later hU g1 g2
+
+/-! ### objects made later are invisible to earlier ones -/
+
+/-- `h2` extends `h`: every object of `h` is still there with the same skeleton -/
+def Pre (h h2 : Heap) : Prop :=
+  ∀ (j : Nat) (o : Obj), h[j]? = some o → ∃ o2 : Obj, h2[j]? = some o2 ∧ o2.skel = o.skel
+
+theorem Pre_skel {h h' h2 h2' : Heap} (e : skelH h' = skelH h) (e2 : skelH h2' = skelH h2) (hp : Pre h h2) :
+    Pre h' h2' := by
+  intro j o' ho'
+  obtain ⟨o, ho, es⟩ := skel_get_some e ho'
+  obtain ⟨o2, ho2, es2⟩ := hp j o ho
+  obtain ⟨o2', ho2', es2'⟩ := skel_get_some e2.symm ho2
+  exact ⟨o2', ho2', by rw [es2', es2, es]⟩
+
+theorem denAt_pt (f : File) {up up2 : Prim → Ans} {h h2 : Heap} {i : Nat} {o o2 : Obj} (ho : h[i]? = some o)
+    (ho2 : h2[i]? = some o2) (es : o2.skel = o.skel) (hu : ∀ q, up2 q = up q) (p : Prim) :
+    denAt f up2 h2 i p = denAt f up h i p := by
+  have : up2 = up := funext hu
+  subst this
+  unfold denAt
+  rw [ho, ho2]
+  have e3 : o2.mode = o.mode := congrArg Skel.mode es
+  have e5 : o2.alive = o.alive := congrArg Skel.alive es
+  simp only [e3, e5]
+  split
+  · rfl
+  · split <;> simp only [denOne_skel f up2 es]
+
+theorem den_pre (f : File) {h h2 : Heap} (hCh : ChainOK h) (hp : Pre h h2) :
+    ∀ (chain : List Nat) (i : Nat) (o : Obj) (p : Prim), h[i]? = some o → o.chain = chain →
+      den f chain h2 i p = den f chain h i p := by
+  intro chain
+  induction chain with
+  | nil =>
+    intro i o p ho _
+    obtain ⟨o2, ho2, es⟩ := hp i o ho
+    unfold den
+    exact denAt_pt f ho ho2 es (fun _ => rfl) p
+  | cons par rest ih =>
+    intro i o p ho hc
+    obtain ⟨o2, ho2, es⟩ := hp i o ho
+    obtain ⟨po, hpo, hpc⟩ := hCh i o ho par rest hc
+    unfold den
+    exact denAt_pt f ho ho2 es (fun q => ih par po q hpo hpc) p
+
+/-- a memo-insensitive computation addressed to object `j` answers alike on a heap and on any extension -/
+def Pure2p (f : File) (j : Nat) (m : Heap → Heap × Ans) : Prop :=
+  ∀ h h2, Good f h → Good f h2 → Pre h h2 → (∃ o, h[j]? = some o) →
+    (m h2).2 = (m h).2 ∧ Good f (m h).1 ∧ Good f (m h2).1 ∧ Pre (m h).1 (m h2).1 ∧ ∃ o, (m h).1[j]? = some o
+
+theorem Pure2p_of (f : File) (j : Nat) {m : Heap → Heap × Ans} (hm : Pure2 f m)
+    (ha : ∀ h h2, Good f h → Good f h2 → Pre h h2 → (∃ o, h[j]? = some o) → (m h2).2 = (m h).2) : Pure2p f j m := by
+  intro h h2 hG hG2 hp hj
+  obtain ⟨_, r1, s1⟩ := hm h h (R_refl hG)
+  obtain ⟨_, r2, s2⟩ := hm h2 h2 (R_refl hG2)
+  refine ⟨ha h h2 hG hG2 hp hj, r1.1, r2.1, Pre_skel s1 s2 hp, ?_⟩
+  obtain ⟨o, ho⟩ := hj
+  obtain ⟨o1, ho1, _⟩ := skel_get_some s1.symm ho
+  exact ⟨o1, ho1⟩
+
+theorem evalTop_pure2p (f : File) (j : Nat) (p : Prim) : Pure2p f j (fun h => evalTop f h j p) := by
+  apply Pure2p_of f j (evalTop_pure2 f j p)
+  intro h h2 hG hG2 hp ⟨o, ho⟩
+  obtain ⟨o2, ho2, es⟩ := hp j o ho
+  rw [evalTop_den f hG ho, evalTop_den f hG2 ho2]
+  have : o2.chain = o.chain := congrArg Skel.chain es
+  rw [this]
+  exact den_pre f hG.2.1 hp o.chain j o p ho rfl
+
+theorem numFrames_pure2p (f : File) (j : Nat) : Pure2p f j (fun h => numFrames h j) := by
+  apply Pure2p_of f j (numFrames_pure2 f j)
+  intro h h2 _ _ hp ⟨o, ho⟩
+  obtain ⟨o2, ho2, es⟩ := hp j o ho
+  rw [(numFrames_eq h j).1, (numFrames_eq h2 j).1, ho, ho2]
+  simp only [es]
+
+theorem seq2_pure2p {f : File} {j : Nat} {m1 m2 : Heap → Heap × Ans} (h1 : Pure2p f j m1) (h2 : Pure2p f j m2) :
+    Pure2p f j (seq2 m1 m2) := by
+  intro h hx hG hGx hp hj
+  obtain ⟨a1, g1, gx1, p1, j1⟩ := h1 h hx hG hGx hp hj
+  obtain ⟨a2, g2, gx2, p2, j2⟩ := h2 _ _ g1 gx1 p1 j1
+  unfold seq2
+  rw [a1]
+  cases hE : (m1 h).2.isErr with
+  | true => simp only [if_true]; exact ⟨a1, g1, gx1, p1, j1⟩
+  | false =>
+    simp only [Bool.false_eq_true, if_false]
+    rw [a2]
+    exact ⟨rfl, g2, gx2, p2, j2⟩
+
+theorem Pure2p_pure (f : File) (j : Nat) (a : Ans) : Pure2p f j (fun h => (h, a)) := by
+  intro h h2 hG hG2 hp hj; exact ⟨rfl, hG, hG2, hp, hj⟩
+
+theorem queryLive_pure2p (f : File) (j : Nat) (q : Query) {o o2 : Obj} (es : o2.skel = o.skel) :
+    ∀ h h2, Good f h → Good f h2 → Pre h h2 → (∃ o, h[j]? = some o) →
+      (queryLive f h2 j o2 q).2 = (queryLive f h j o q).2 := by
+  obtain ⟨e1, e2, _, _, _, e6, _, _⟩ := skel_fields es
+  intro h h2 hG hG2 hp hj
+  cases q with
+  | static k => simp [queryLive, e6]
+  | start => simp [queryLive, e1]
+  | stop => simp [queryLive, e2]
+  | infowave => simp [queryLive, e1, e2]
+  | prim p => exact (evalTop_pure2p f j p h h2 hG hG2 hp hj).1
+  | lineRanges => exact (seq2_pure2p (evalTop_pure2p f j _) (evalTop_pure2p f j _) h h2 hG hG2 hp hj).1
+  | shape =>
+    unfold queryLive
+    cases f.isScan with
+    | true => exact (numFrames_pure2p f j h h2 hG hG2 hp hj).1
+    | false => exact (evalTop_pure2p f j _ h h2 hG hG2 hp hj).1
+  | duration => exact (seq2_pure2p (evalTop_pure2p f j _) (evalTop_pure2p f j _) h h2 hG hG2 hp hj).1
+  | numFrames => exact (numFrames_pure2p f j h h2 hG hG2 hp hj).1
+
+theorem query_pre (f : File) (j : Nat) (q : Query) (h h2 : Heap) (hG : Good f h) (hG2 : Good f h2) (hp : Pre h h2)
+    (hj : ∃ o, h[j]? = some o) : (query f h2 j q).2 = (query f h j q).2 := by
+  obtain ⟨o, ho⟩ := hj
+  obtain ⟨o2, ho2, es⟩ := hp j o ho
+  unfold query
+  rw [ho, ho2]
+  have e7 : o2.alive = o.alive := congrArg Skel.alive es
+  have e6 : o2.path = o.path := congrArg Skel.path es
+  simp only [e7, e6]
+  cases o.alive with
+  | false => rfl
+  | true =>
+    simp only [Bool.not_true, Bool.false_eq_true, if_false]
+    cases f.pure with
+    | true => rfl
+    | false => exact queryLive_pure2p f j q es h h2 hG hG2 hp ⟨o, ho⟩
+
+theorem push_pre {h hA : Heap} (e : skelH hA = skelH h) (n : Obj) (a : Ans) : Pre h (push hA n a).1 := by
+  intro j o ho
+  obtain ⟨o1, ho1, es⟩ := skel_get_some e.symm ho
+  exact ⟨o1, get_append_old ho1, es⟩
+
+theorem sliceFinish_push (f : File) (h2 : Heap) (i x : Nat) (a b : Option Int) (o : Obj) (r : Ans) :
+    ∃ n ans, sliceFinish f h2 i x a b o r = push h2 n ans := by
+  unfold sliceFinish
+  split
+  · split
+    · split
+      · exact ⟨_, _, rfl⟩
+      · split <;> exact ⟨_, _, rfl⟩
+    · exact ⟨_, _, rfl⟩
+  · exact ⟨_, _, rfl⟩
+
+theorem derive_pre (f : File) (h : Heap) (hG : Good f h) (i x : Nat) (d : Derive) : Pre h (derive f h i x d).1 := by
+  unfold derive
+  cases ho : h[i]? with
+  | none => exact push_pre rfl _ _
+  | some o =>
+    simp only
+    cases o.alive with
+    | false => exact push_pre rfl _ _
+    | true =>
+      simp only [Bool.not_true, Bool.false_eq_true, if_false]
+      have sN : skelH (numFrames h i).1 = skelH h := (numFrames_eq h i).2.1
+      have gN : Good f (numFrames h i).1 := (numFrames_eq h i).2.2 f hG
+      cases d with
+      | placeholder => exact push_pre rfl _ _
+      | pureDerive => exact push_pre rfl _ _
+      | copy => exact push_pre rfl _ _
+      | view m => exact push_pre rfl _ _
+      | slice a b =>
+        show Pre h (if o.mode ≠ .root then push h deadObj (.err .notImpl)
+          else sliceFinish f (minMax f i h).1 i x a b o (minMax f i h).2).1
+        split
+        · exact push_pre rfl _ _
+        · obtain ⟨n, ans, hs⟩ := sliceFinish_push f (minMax f i h).1 i x a b o (minMax f i h).2
+          rw [hs]
+          exact push_pre (minMax_pure2 f i h h (R_refl hG)).2.2 _ _
+      | scanFail e => exact push_pre sN _ _
+      | scanEmpty => exact push_pre sN _ _
+      | scanCrop => exact push_pre sN _ _
+      | scanView =>
+        show Pre h (scanViewFinish (minMax f i (numFrames h i).1).1 i x o (minMax f i (numFrames h i).1).2).1
+        unfold scanViewFinish
+        have := (minMax_pure2 f i _ _ (R_refl gN)).2.2
+        split <;> exact push_pre (this.trans sN) _ _
+
 end Verif.C19
